@@ -70,7 +70,7 @@ def mutants(args):
     only = os.environ.get("VERIF_ONLY")
     failed = 0
     for name, patch, props in patches:
-        if only and only not in name:
+        if only and not any(o and o in name for o in only.split(",")):
             continue
         scratch = tempfile.mkdtemp(prefix="verif-mut-", dir="/dev/shm" if os.path.isdir("/dev/shm") else None)
         try:
